@@ -155,6 +155,7 @@ def run_verus_unit(unit, scratch, workdir, expect_fail_prefix="vacuity_canary_")
     # compile errors (rustc) are not verification failures
     src_lines = open(out_rs).read().split("\n")
     fn_ranges = _fn_ranges(src_lines)
+    rlimit_fns = []
     for d in diags:
         msg = d.get("message", "")
         if msg.startswith("aborting due to"):
@@ -198,11 +199,17 @@ def run_verus_unit(unit, scratch, workdir, expect_fail_prefix="vacuity_canary_")
         if fnn.startswith(expect_fail_prefix) or (fnn.split("::")[-1]).startswith(expect_fail_prefix):
             continue
         if kind == "rlimit":
-            res["undecided"] = "verus resource limit in %s" % fnn
-            return res
+            rlimit_fns.append(fnn)
+            continue
         res["failures"].append(dict(obligation="V:%s:%s" % (fnn, kind), function=fnn, kind=kind, message=msg,
                                     detail=label_txt.strip(), line=line,
                                     rendered=(d.get("rendered") or "")[:1500]))
+    # a resource-limit report alone is "undecided"; next to a definite failed obligation of the same
+    # function (Verus goes on with the rest of the body after reporting the failed exit) it is not
+    for f in rlimit_fns:
+        if not any(x["function"] == f for x in res["failures"]):
+            res["undecided"] = "verus resource limit in %s" % f
+            return res
     # vacuity canaries: functions named vacuity_canary_* must FAIL to verify
     canaries = [f for f in fsucc if f.split("::")[-1].startswith(expect_fail_prefix)]
     for c in canaries:
